@@ -234,6 +234,9 @@ func (st *sutState) handle(req *sutReq) (interface{}, error) {
 	case "hook_release":
 		vhook.Release(req.Point)
 		return nil, nil
+	case "hook_release_parked":
+		vhook.ReleaseParked(req.Point)
+		return nil, nil
 	case "hook_release_all":
 		vhook.ReleaseAll()
 		return nil, nil
